@@ -3,9 +3,9 @@ import os, re, json, shutil
 from . import common as C
 
 MANIFEST = dict(
-   technique="Lean 4 proof over a transcription of pkg/tagparser (checked slicing: totality, no out-of-bounds slice, whitespace invariance) + `decide` over the rule matrix regenerated behaviourally from FromStruct on every run (documented rule x field type x both orders of two rules x boundary values) against the documented-meaning oracle",
-   text="Tag parser: c06_no_panic / c06_parse_ws are proved for all rune strings about the transcription of ParseTagString/splitParts/parseRule (after pending/C06-tagparser.diff; c06_legacy_panics is the witness for the pinned code), tied to the code by a differential run on corpus, exhaustive short strings over the special bytes and random byte strings under recover(). Rule matrix: Gen/TagTable.lean is regenerated on every run by building one struct type per field type with one field per tag, FromStruct[T](), and Parse on boundary values; c06_no_silent_noop_partial / c06_pairs_partial / c06_order_independent are `decide` proofs over the whole regenerated table; every excluded cell is a listed known finding with a witness theorem.",
-   note="Trusted: Lean kernel; axioms propext/Classical.choice/Quot.sound only; Go's rune decoding of the tag (the model starts from []rune(tag)); unicode.IsSpace table as transcribed; the harness, matrix generator and comparer. The rule matrix is finite: the listed field types, one parameter per rule, pairs of rules (not longer tags), boundary probes only. Format rules (email/url/uuid/regex) are judged on blatant members/non-members. The documented meaning is this check's reading of docs/tags.md (required = presence).",
+   technique="Lean 4 proof over (a) a transcription of pkg/tagparser (checked slicing: totality, no out-of-bounds slice, whitespace invariance), (b) a transcription of the cycle-detection walk of types/struct.go over type graphs (nested struct fields by value / pointer / slice element / map value / embedded, the same type reached several times, recursive types), (c) the meaning of a tag text on a string field as a function of the tag alone; `decide` over two tables regenerated behaviourally from FromStruct on every run (rule matrix: documented rule x field type x both orders of two rules x boundary values; type graphs: 94 root types read back by reflection x every single corruption of a valid value) against independently written documented-meaning oracles; differential run of histories of FromStruct calls in fresh processes",
+   text="Tag parser: c06_no_panic / c06_parse_ws are proved for all rune strings about the transcription of ParseTagString/splitParts/parseRule, tied by a differential run on corpus, exhaustive short strings over the special bytes and random byte strings under recover(). Rule matrix: Gen/TagTable.lean is regenerated on every run (one struct type per field type, one field per tag, FromStruct[T](), Parse on boundary values); c06_no_silent_noop_partial / c06_pairs_partial / c06_order_independent are `decide` proofs over the whole table, every excluded cell is a listed known finding with a witness theorem; c06_accept_perm lifts order independence of the documented meaning to any permutation of any rule list. Type graphs: Graph.Code transcribes parseStructTagsToSchemasWithCycleDetection / createSchemaFromTypeWithCycleDetection / createLazySchemaForType (the `visited` set, the Lazy path, the fresh walk under maps); c06_graph_no_lazy_on_dag (on an acyclic type graph the cycle test never fires, however often and in whatever order a type occurs), c06_graph_walk_is_spec, c06_graph_partial (= documented meaning outside the decidable deviation predicate Dev.dev) hold for all environments and all finite values; Gen/TagGraph.lean (type graphs by reflection + verdicts) is proved equal to the model on every probe (c06_graph_table_is_model) and hence to the documented meaning (c06_graph_table_partial). Histories: Rules.Code.accepts / Rules.Spec.accepts are functions of the tag text (c06_history_independent, c06_tag_ws_verdict, c06_tag_meaning_partial), tied by building families of near-identical tags in several orders in fresh child processes.",
+   note="Trusted: Lean kernel; axioms propext/Classical.choice/Quot.sound only; Go's rune decoding of the tag (the model starts from []rune(tag)); unicode.IsSpace table as transcribed; the harness, the generators in vlib/c06.py and the comparer. The rule matrix is finite: the listed field types, one parameter per rule, pairs of rules, boundary probes only. Format rules (email/url/uuid/regex) are judged on blatant members/non-members. Type graphs: finite acyclic VALUES only (no cyclic pointer structures); probes are single corruptions of one valid value per root, recursion unfolded twice (thorough: three times); the graph world has one scalar field `V int min=3` per struct and edge tags `required` / `max=2` / none. Histories: string fields, rules enum/includes/startswith/endswith/min/max/length/required. The documented meaning is this check's reading of docs/tags.md (required = presence; an untagged field is not validated; a nil slice/map is the absent container).",
    design="DESIGN.md §5 C06")
 
 MODULES = ["Gozod.Proofs.C06", "Gozod.Proofs.C06G", "Gozod.Proofs.C06H"]
@@ -615,11 +615,15 @@ def _run(res):
         "single rule and both orders of every pair x boundary probes (value-1/value/value+1 of every bound, sign boundaries, halves for floats, "
         "nil for pointers, member/non-member strings of 5 kinds at 9 lengths); exhaustive and deterministic in both tiers. "
         "tag parser: corpus + every string of length <= 3 (thorough 4) over 15 special bytes + 20000 (thorough 400000) random fragment/byte strings. "
-        "distinct = distinct op lines." % len(blocks))
+        "type graphs: %d generated root struct types (single nested field of every wrap x tag; every ordered pair of wraps as siblings of one tagged type; triples; diamonds and two branches; recursive, mutually recursive and map-recursive types), valid base value + every single corruption (invalid V at every node, nil at every pointer, nil/empty/too long at every slice, nil/empty at every map). "
+        "histories: %d families of near-identical tags on one string field x identity/reverse/doubled/rotated/3 seeded random (thorough 20) build orders, each in a fresh child process, all probes after each build and again at the end. "
+        "distinct = distinct op lines." % (len(blocks), len(graph_roots()), len(TWIN_FAMILIES)))
     res.assumptions += [
         "docs/tags.md tables are the documented rule set; `required` is read as presence (pointer non-nil)",
         "string length is len() in bytes",
         "Go decodes the tag into runes as `for range` does (the parser model starts from the rune list)",
         "one parameter value per rule and tags of at most two rules represent the rule x type x order matrix",
+        "a field without a gozod tag is not validated (the statement quantifies over tagged fields); a nil slice / map in a field that is not `required` is the absent (empty) container and is acceptable",
+        "finite acyclic values only: cyclic pointer structures are not generated",
     ]
     return res.finish()
